@@ -637,8 +637,12 @@ ipc_ep_close(void *arg)
 	NNI_LIST_FOREACH (&ep->nego_pipes, p) {
 		nni_pipe_close(p->pipe);
 	}
-	NNI_LIST_FOREACH (&ep->wait_pipes, p) {
+	// Pipes that finished negotiating but were never handed to an
+	// accept hold the reference that nni_pipe_start would have released.
+	while ((p = nni_list_first(&ep->wait_pipes)) != NULL) {
+		nni_list_remove(&ep->wait_pipes, p);
 		nni_pipe_close(p->pipe);
+		nni_pipe_rele(p->pipe);
 	}
 	nni_mtx_unlock(&ep->mtx);
 }
